@@ -75,18 +75,22 @@ theorem skel_handleChanClose_shape :
 theorem skel_frameExecutor_shape :
     Generated.skel_frameExecutor = [
   "for",
+  "  var qf queuedFrame",
   "  select",
+  "    case qf = <-c.frameExecQueue",
   "    case <-ctx.Done()",
-  "      return",
-  "    case qf := <-c.frameExecQueue",
-  "      var frame frame",
-  "      if err := json.Unmarshal(qf.buf, &frame); err != nil",
-  "        continue",
-  "      var err error",
-  "      frame.ID, err = normalizeID(frame.ID)",
-  "      if err != nil",
-  "        continue",
-  "      c.handleFrame(ctx, frame, qf.epoch)"] := rfl
+  "      select",
+  "        case qf = <-c.frameExecQueue",
+  "        default",
+  "          return",
+  "  var frame frame",
+  "  if err := json.Unmarshal(qf.buf, &frame); err != nil",
+  "    continue",
+  "  var err error",
+  "  frame.ID, err = normalizeID(frame.ID)",
+  "  if err != nil",
+  "    continue",
+  "  c.handleFrame(ctx, frame, qf.epoch)"] := rfl
 
 /-- `handleResponse`: unknown id ↦ return; channel results register the sink first; deliver to `req.ready`; remove the entry only if it is still this request's. -/
 theorem skel_handleResponse_shape :
